@@ -36,6 +36,11 @@ class ConclusionSelector(LogicalOperator, ABC):
             self._conclusion_.update(conclusions)
             self.concluded_before[not self._is_false_].add(required_output)
 
+    def _reset_only_my_cache_(self) -> None:
+        super()._reset_only_my_cache_()
+        # which conclusions were drawn for which bindings belongs to one evaluation, like the duplicate tracking.
+        self.concluded_before = {True: SeenSet(), False: SeenSet()}
+
     def _copy_expression_(self, postfix: str) -> SymbolicExpression:
         cp = super()._copy_expression_(postfix)
         cp.concluded_before = {True: SeenSet(), False: SeenSet()}
